@@ -6,7 +6,7 @@ from n0v import coqlit as L
 
 KEYS = ["a", "b", "c", "k1", "é", "Z", "id", "f"]
 # legal keys that look like something else to a careless tokenizer: punctuation, digits only, a signed number
-ODD_KEYS = ["line-item", "ns:tag", "$r", "@x", "2024", "0", "-1", "x.y", "#y", ".", "Up", "Item"]
+ODD_KEYS = ["line-item", "ns:tag", "$r", "@x", "2024", "0", "-1", "x.y", "#y", ".", "Up", "Item", "50%25", "a%41b", "lim]", ".cfg"]
 STRS = ["", "x", "B", "a b", "1", "é", "xy", "2"]
 
 
@@ -189,14 +189,16 @@ ALLOWED_MISS = ("ExKey", "ExIndex", "ExValue", "ExType", "ExSyntax")
 def raw_get(obj, path):
     """navigate with the builtin dict/list item access (never the xpath machinery)"""
     for s in path:
-        obj = dict.__getitem__(obj, s) if isinstance(obj, dict) else list.__getitem__(obj, s)
+        obj = dict.__getitem__(obj, s) if isinstance(obj, dict) else tuple.__getitem__(obj, s) if isinstance(obj, tuple) else list.__getitem__(obj, s)
     return obj
 
 
 def plain(x):
     if isinstance(x, dict):
         return {k: plain(v) for k, v in dict.items(x)}
-    if isinstance(x, (list, tuple)):
+    if isinstance(x, tuple):
+        return [plain(v) for v in tuple.__iter__(x)]
+    if isinstance(x, list):
         return [plain(v) for v in list.__iter__(x)]
     return x
 
